@@ -189,6 +189,17 @@ def build(verbose=False):
     return r
 
 
+def coqchk_property(pid):
+    """Thorough tier: re-check the property module and everything it depends on with the independent checker."""
+    cmd = ['timeout', '1500', 'coqchk', '-silent', '-o', '-Q', '.', 'WD', 'WD.Properties.%s' % pid]
+    t0 = time.time()
+    rc, out = sh(cmd, cwd=COQ, timeout=1600)
+    m = re.search(r'\* Axioms:\s*(.*?)\n\s*\n\* Constants', out, flags=re.S)
+    axioms = m.group(1).strip() if m else '?'
+    ok = rc == 0 and axioms == '<none>' and 'type-in-type: <none>' in out and 'unsafe (co)fixpoints: <none>' in out and 'positivity is assumed: <none>' in out
+    return dict(ok=ok, rc=rc, axioms=axioms, cmd=' '.join(cmd[2:]), wall_s=round(time.time() - t0, 1), tail=out[-400:] if not ok else '')
+
+
 def check_property_file(pid, proof_files):
     """Compile Properties/<pid>.v on its own (re-checks the statements, prints assumptions).
     Returns dict(ok, obligations, discharged, assumptions, not_closed, cmd, out)."""
@@ -417,7 +428,8 @@ def finish(res, propinfo, t0):
             lines.append('VIOLATION property=%s replay=%s' % (pid, p))
             reported.add(p)
         exit_code = 1
-    proof_broken = (not b['ok']) or (not pf['ok']) or bool(hits)
+    chk = coqchk_property(pid) if res.tier == 'thorough' and b['ok'] and pf['ok'] else None
+    proof_broken = (not b['ok']) or (not pf['ok']) or bool(hits) or (chk is not None and not chk['ok'])
     if proof_broken:
         detail = dict(property=pid, what='proof obligation / build / translator no longer checks',
                       build_ok=b['ok'], failed=b.get('failed'), translator_error=b.get('translator_error'),
@@ -449,6 +461,7 @@ def finish(res, propinfo, t0):
             'input_distribution': res.dist,
             'out_of_model': res.out_of_model,
             'known_findings_hit': [f['id'] for f in known_hit],
+            'coqchk': chk if chk is not None else 'run in the thorough tier only',
             'forbidden_constructs': hits,
         },
         'assumptions': propinfo.get('assumptions', []),
